@@ -138,6 +138,15 @@ def build_world(ch, options):
     sel = int.from_bytes(cheats_ref._sel(sig), "big")
 
     def innermost(a: Asm):
+        skip_assume = None
+        if use_assume and ch.chance(0.4, "w.abranch"):
+            # the assumption is made on one side of a branch only: the sibling path reaches the same assertion without it
+            skip_assume = a.fresh("noassume")
+            j = ch.pick(n_in, "w.abi")
+            a.push(1).push(32 * j).op("CALLDATALOAD").op("AND")
+            if ch.chance(0.5, "w.abside"):
+                a.op("ISZERO")
+            a.jumpi(skip_assume)
         if use_assume:
             # vm.assume(pred(cd))
             a.push(int.from_bytes(cheats_ref.ASSUME, "big") << 224).push(0x300).op("MSTORE")
@@ -151,6 +160,8 @@ def build_world(ch, options):
                 a.push(32 * i).op("CALLDATALOAD").push(ch.choose([0, 7], "w.ae")).op("EQ").op("ISZERO")
             a.push(0x304).op("MSTORE")
             a.push(0).push(0).push(0x24).push(0x300).push(0).push(cheats_ref.VM).push(0xFFFF).op("CALL").op("POP")
+        if skip_assume is not None:
+            a.label(skip_assume)
         a.push(sel << 224).push(0x400).op("MSTORE")
         emit_store_cells(a, cells, 0x404)
         a.push(0).push(0).push(4 + 32 * len(cells)).push(0x400).push(0).push(cheats_ref.VM).push(0xFFFF).op("CALL").op("POP")
